@@ -96,11 +96,20 @@ def assume_map(mapping, prog=None):
     """configuration of an obligation: truth values for branch tests, keyed by the test's source text as it reads today.
     Matching is robust to mirrored comparisons (a > b vs b < a) and to a consistent renaming of the function's local
     variables (names assigned inside the function; parameters and globals must match exactly)."""
+    _COMPLEMENT = {ast.IsNot: ast.Is, ast.NotEq: ast.Eq, ast.NotIn: ast.In}
+
     def strip_not(n):
+        """the test with its negations removed, and their parity: `not c`, `a is not b`, `a != b`, `a not in b` are the negations of
+        `c`, `a is b`, `a == b`, `a in b`"""
         par = False
-        while isinstance(n, ast.UnaryOp) and isinstance(n.op, ast.Not):
-            n, par = n.operand, not par
-        return n, par
+        while True:
+            if isinstance(n, ast.UnaryOp) and isinstance(n.op, ast.Not):
+                n, par = n.operand, not par
+            elif isinstance(n, ast.Compare) and len(n.ops) == 1 and type(n.ops[0]) in _COMPLEMENT:
+                n = ast.Compare(left=n.left, ops=[_COMPLEMENT[type(n.ops[0])]()], comparators=n.comparators)
+                par = not par
+            else:
+                return n, par
 
     keys = []
     for k, v in mapping.items():
